@@ -10,7 +10,7 @@ VARIABLE c   \* the case: [doc, enforced]
    the state carries the document so that nothing is recomputed afterwards *)
 Init == \/ \E k \in DOMAIN EnforcedUniverse : c = [doc |-> EnforcedUniverse[k], enforced |-> TRUE]
         \/ \E k \in DOMAIN StringUniverse :
-              /\ (StringUniverse[k].fam = "S1" \/ ~Enforced(StringUniverse[k].defs["T"], StringUniverse[k].defs, 3))
+              /\ (StringUniverse[k].fam \in {"S1", "S2"} \/ ~Enforced(StringUniverse[k].defs["T"], StringUniverse[k].defs, 3))
               /\ c = [doc |-> StringUniverse[k], enforced |-> FALSE]
 Next == UNCHANGED c
 Spec == Init /\ [][Next]_c
@@ -31,7 +31,7 @@ StrProbe(s) == [kind |-> "str", ty |-> [def |-> "T"], s |-> s, val |-> JStr(s), 
 
 Emit == PrintT(<<"CASE", ToJson([fam |-> D.fam, id |-> D.id, enforced |-> InEnforced,
                                  stringlike |-> IsStringDoc(D) \/ ~InEnforced,
-                                 settings |-> [builder |-> FALSE],
+                                 settings |-> (IF D.fam = "S2" THEN S2Settings ELSE [builder |-> FALSE]),
                                  calls |-> << [call |-> "add_root_schema", doc |-> [defs |-> D.defs]] >>,
                                  probes |-> (IF InEnforced THEN [j \in DOMAIN Cands |-> DeserProbe(Cands[j])] ELSE << >>)
                                             \o (IF IsStringDoc(D) \/ ~InEnforced
